@@ -212,3 +212,24 @@ impl Worker {
     }
 }
 
+
+/// erbium runs with the log level "info" by default, and formatting a log record runs code (Display of
+/// options, addresses, ...): format every record the way a logger would, and drop it.
+struct FormatOnlyLogger;
+impl log::Log for FormatOnlyLogger {
+    fn enabled(&self, m: &log::Metadata) -> bool {
+        m.level() <= log::Level::Info
+    }
+    fn log(&self, r: &log::Record) {
+        if self.enabled(r.metadata()) {
+            let _ = format!("{}", r.args());
+        }
+    }
+    fn flush(&self) {}
+}
+pub fn install_info_logger() {
+    static L: FormatOnlyLogger = FormatOnlyLogger;
+    if log::set_logger(&L).is_ok() {
+        log::set_max_level(log::LevelFilter::Info);
+    }
+}
